@@ -67,6 +67,9 @@ __CPROVER_assigns(self->queue_[index / 4], G_set_by_other, G_cleared_by_other)
 void h_add(void) { SETUP; W_mode = 1; add(q, W_index, W_bits); BT_CANARY(); }
 ''', enforce=['add'], replace=['interfere'], replay=dict(src='replay/c13_replay.cpp')),
 ]
+# the consumer side without interference: dequeue clears exactly the bit it hands out, so a request of the other kind queued for the
+# same characteristic is not lost (contract stated in C12.py)
+UNITS += [dict(u, enforce=['dequeue']) for u in _c12.UNITS if u['name'] == 'dequeue']
 
 META = dict(
     level='other',
@@ -75,7 +78,7 @@ META = dict(
                 "is the rely (the other context sets, resp. clears, arbitrary bits of that byte). The obligation 'no bit set by the other "
                 "context between entry and exit is lost' (resp. 'no dequeued bit is resurrected') is checked for every interleaving at "
                 "single-access granularity. On the current tree the obligation fails (lost update, marked 'TODO: Synchronization required' "
-                "in the source): recorded as known finding F-C13; with that witness class excluded all remaining obligations are discharged.",
+                "in the source): recorded as known finding F-C13; the sequential consumer (dequeue, C12 contract) clears exactly the bit it hands out; with that witness class excluded all remaining obligations are discharged.",
     assumptions=["byte loads and stores are individually atomic and sequentially consistent; one interference point between the load and the "
                  "store of each compound assignment (further interference before the load or after the store commutes with the operation)"],
     trusted_base=["interfere(): rely relation of the other context (assumed contract, it is the guarantee of add()/remove() themselves)"],
